@@ -19,6 +19,7 @@ import SvgVerif.Spec.Shapes
 import SvgVerif.Model.Doc
 import SvgVerif.Model.Intersect
 import SvgVerif.Model.ArcParam
+import SvgVerif.Model.ArcPointToT
 /-! Correspondence driver: one operation per input line, one canonical result per
 output line.  Run as `lake env lean --run Driver.lean < ops.txt`.  The Python
 harness feeds the same operations to the real svgpathtools code and diffs. -/
@@ -637,6 +638,21 @@ def runArcParam (args : List String) : String :=
     | _ => "bad-args"
   | _ => "bad-args"
 
+/-! C11: Arc.point_to_t on exact rationals (same stand-ins as the harness) -/
+def runArcPtt (args : List String) : String :=
+  match parseRats? args with
+  | some [sx, sy, ex, ey, cx, cy, rx, ry, rot, theta, delta, px, py] =>
+    let closeP : Rat × Rat → Rat × Rat → Bool := fun p q =>
+      decide ((p.1 - q.1) * (p.1 - q.1) + (p.2 - q.2) * (p.2 - q.2) ≤ ((1 : Rat) / 1000000) * ((1 : Rat) / 1000000))
+    let closeS : Rat → Rat → Bool := fun a b => decide (sabs (a - b) ≤ (1 : Rat) / 100000000 + ((1 : Rat) / 100000) * sabs b)
+    match ArcPointToT.pointToT sqrtStandin (fun x => 90 * (1 - x)) (fun x => 90 * x) closeP closeS 64
+        (sx, sy) (ex, ey) (cx, cy) rx ry rot theta delta (px, py) with
+    | .t v => "t " ++ showRat v
+    | .none => "none"
+    | .valueError => "valueerror"
+    | .fuel => "fuel"
+  | _ => "bad-args"
+
 def handle (cmd : String) (args : List String) : String :=
   match cmd with
   | "polyroots01" =>
@@ -809,6 +825,7 @@ def handle (cmd : String) (args : List String) : String :=
   | "cubcache" => runCubCache false args
   | "cubcache_buggy" => runCubCache true args
   | "arcparam" => runArcParam args
+  | "arcptt" => runArcPtt args
   | "lineline" => runLineLine args
   | "hull" => runHull args
   | "bezline" => runBezLine args
